@@ -50,7 +50,9 @@ def run_impl(frames_vals, times, method, grid, max_dist, cls_name="DiffuseDrople
     import droplets
     from droplets import DropletTrackList, Emulsion, EmulsionTimeCourse
 
-    cls = getattr(droplets, cls_name)
+    from droplets import droplets as _dmod
+
+    cls = getattr(_dmod, cls_name)
     ems = []
     tag2id = {}
     for fi, fr in enumerate(frames_vals, 1):
